@@ -19,7 +19,7 @@ CLASSMODELS = {
 def CMP(op):
     return ("ite(op == '>=', count(a, lits) >= constant, ite(op == '<=', count(a, lits) <= constant, "
             "ite(op == '<', count(a, lits) < constant, ite(op == '>', count(a, lits) > constant, "
-            "count(a, lits) == constant))))")
+            "ite(op == '!=', count(a, lits) != constant, count(a, lits) == constant)))))")
 
 
 def builder(meaning, extra_requires=()):
@@ -66,15 +66,21 @@ CONTRACTS = {
         'ensures_on_raise': ['self._numvar == old(self._numvar)'],
     },
     (L, 'CNFLinear.add_linear'): dict(
-        builder(CMP('op'), extra_requires=["op != '!='"]),
+        builder(CMP('op')),
         params={'lits': 'iseq', 'op': 'str', 'constant': 'int', 'check': 'bool'},
-        raises={'ValueError': "(op != '<=' and op != '>=' and op != '<' and op != '>' and op != '==') or (check and haszero(lits))"},
+        raises={'ValueError': "(op != '<=' and op != '>=' and op != '<' and op != '>' and op != '==' and op != '!=') or (check and haszero(lits))"},
         decreases="ite(op == '>=', 0, ite(op == '<=', 1, ite(op == '>', 1, 2)))",
-        loops={3: {'ghost_at_entry': {'C0': 'self._clauses'},
+        loops={0: {'ghost_at_entry': {'C0': 'self._clauses', 'L0': 'lits'}, 'ghost_at_entry_vals': {'NV': 'self._numvar'},
+                   # after each complete round the private copy of the literal list is back to its original content
+                   'inv': ['self._clauses == capp(C0, neqprefix(L0, constant, _it))', 'lits == L0', 'self._numvar == NV',
+                           '0 <= constant', 'constant <= n', 'n == ilen(L0)'],
+                   'modifies_objects': ['self'], 'modifies_fields': {'self': ['_clauses', '_numvar']}},
+               1: {'ghost_at_entry': {'L1': 'lits'}, 'inv': ['lits == iflips(L1, flips, _it)']},
+               2: {'ghost_at_entry': {'L2': 'lits'}, 'inv': ['lits == iflips(L2, flips, _it)']},
+               3: {'ghost_at_entry': {'C0': 'self._clauses'},
                    'inv': ['self._clauses == capp(C0, ctake(combs(lits, k), _it))', 'self._numvar == old_numvar_at_entry'],
                    'ghost_at_entry_vals': {'old_numvar_at_entry': 'self._numvar'},
                    'modifies_objects': ['self'], 'modifies_fields': {'self': ['_clauses', '_numvar']}}},
-        note="'!=' branch (in-place flips of the literal list) is outside the proved subset: requires op != '!='; bounded tier covers it",
     ),
     # parity: odd number of true literals iff constant == 1 (any other constant means "even", as the code documents {0,1})
     (L, 'CNFLinear.add_parity'): dict(
